@@ -849,6 +849,15 @@ def check_C12(tr):
     bad += check_no_dup(tr)
     bad += check_unscripted_panic(tr)
     bad += check_stuck(tr)
+    # one by one (chunk size 1) a loop holds nothing but the element its function is working on: whatever it has taken from a
+    # known-size iterator it has passed to the function -- also when the function panics on it (for larger chunk sizes the
+    # rest of the chunk in hand is lost with the panic, by design)
+    if not c.is_iter() and c.adapt == "none" and not tr.aborted and not tr.hang:
+        for lo in loops:
+            if lo.n == 1 and lo.slot == 0 and lo.ret is not None and lo.op in ("foreach", "enumforeach"):
+                took = sum(1 for (_, ev) in lo.events if ev[0] == "at" and ev[2] == "faa" and int(ev[4]) < c.src_len())
+                if took > len(lo.visits):
+                    bad.append("%s 1 called at line %d took %d elements from the iterator but passed only %d to the function" % (lo.op, lo.call, took, len(lo.visits)))
     if quiet_case(tr) and (not c.is_iter() or c.fused()) and all(o.ret is not None and not o.panic for o in loops) and c.src_len() <= BIG_SRC:
         # every thread that pulls ends with a loop => everything is visited exactly once overall
         got = sorted(delivered_positions(tr))
